@@ -46,12 +46,30 @@ def run(ctx: Ctx) -> None:
         scale = max(float(b.double().abs().max()) if b.numel() else 0.0, 1e-30)
         return bool(((a.double() - b.double()).abs().max() if a.numel() else torch.tensor(0.0)) <= tol * scale)
 
-    def run_fn(fn: Callable, tensors: Dict[str, Any], diff: List[str], seed: int):
+    if not quick:
+        # Inductor generates its own random numbers unless told to fall back to eager's generator
+        import torch._inductor.config as icfg
+        icfg.fallback_random = True
+
+    def rounding_close(a: torch.Tensor, b: torch.Tensor, ref: Any, dt: torch.dtype) -> bool:
+        """`a` (compiled) agrees with `b` (eager) to float rounding: either directly within the dtype's tolerance, or - for
+        ill-conditioned results such as the input gradient of a normalisation, where fused kernels legitimately round
+        differently - its error against the float64 evaluation of the same computation is no more than 3x eager's own."""
+        if close(a, b, dt):
+            return True
+        if ref is None or a.shape != b.shape or a.dtype != b.dtype or ref.shape != a.shape:
+            return False
+        ea = float((a.double() - ref.double()).abs().max())
+        eb = float((b.double() - ref.double()).abs().max())
+        scale = max(float(ref.double().abs().max()), 1e-30)
+        return ea <= 3 * eb + TOL[str(dt)] * scale
+
+    def run_fn(fn: Callable, tensors: Dict[str, Any], diff: List[str], seed: int, up_dtype: Any = None):
         t = {k: (v.detach().clone().requires_grad_(True) if (k in diff) else v) for k, v in tensors.items()}
         torch.manual_seed(seed)
         y = fn(t)
         g = torch.Generator().manual_seed(seed + 1)
-        up = torch.randn(y.shape, generator=g, dtype=torch.float64).to(y.dtype)
+        up = torch.randn(y.shape, generator=g, dtype=torch.float64).to(up_dtype or y.dtype).to(y.dtype)
         grads = torch.autograd.grad(y, [t[n] for n in diff], up, allow_unused=True) if diff else []
         return y.detach(), [None if x is None else x.detach() for x in grads]
 
@@ -80,11 +98,20 @@ def run(ctx: Ctx) -> None:
                     got = run_fn(cf, base, case.diff, 5)
                 if got is None:
                     continue
-                if not close(got[0], want[0], dt):
+                ref: Any = (None, [None] * len(case.diff))
+                random_op = (op == "dropout" and case.cfg.get("training") and case.cfg.get("p", 0) > 0) or \
+                    (case.cfg.get("dropout_p", 0) or 0) > 0
+                if dt != torch.float64 and not random_op:
+                    try:
+                        ref = run_fn(f, {k: (v.double() if torch.is_tensor(v) and v.is_floating_point() else v)
+                                         for k, v in base.items()}, case.diff, 5, up_dtype=dt)
+                    except Exception:
+                        ref = (None, [None] * len(case.diff))
+                if not rounding_close(got[0], want[0], ref[0], dt):
                     ctx.violation(f"C20:{op}:output", "compiled output differs from eager", key,
                                   float((got[0].double() - want[0].double()).abs().max()))
-                for n, a, b in zip(case.diff, got[1], want[1]):
-                    if (a is None) != (b is None) or (a is not None and not close(a, b, dt)):
+                for n, a, b, r64 in zip(case.diff, got[1], want[1], ref[1]):
+                    if (a is None) != (b is None) or (a is not None and not rounding_close(a, b, r64, dt)):
                         ctx.violation(f"C20:{op}:grad:{n}", "compiled gradient differs from eager", {**key, "wrt": n},
                                       None if a is None or b is None else float((a.double() - b.double()).abs().max()))
 
@@ -118,28 +145,35 @@ def run(ctx: Ctx) -> None:
         return m.to(dt)
 
     def compare_module(name: str, m: nn.Module, x: torch.Tensor, dt: torch.dtype, key: Dict[str, Any]) -> None:
-        def fb(mod, seed=7):
+        def fb(mod, seed=7, x=x):
             for p in mod.parameters():
                 p.grad = None
             xi = x.clone().requires_grad_(True) if x.is_floating_point() else x
             torch.manual_seed(seed)
             y = mod(xi)
             g = torch.Generator().manual_seed(seed)
-            y.backward(torch.randn(y.shape, generator=g, dtype=torch.float64).to(y.dtype))
+            y.backward(torch.randn(y.shape, generator=g, dtype=torch.float64).to(dt).to(y.dtype))
             return y.detach(), ([xi.grad.detach()] if x.is_floating_point() else []) + \
                 [None if p.grad is None else p.grad.detach().clone() for p in mod.parameters()]
 
         want = fb(m)
+        ref: Any = None
+        if dt != torch.float64:
+            try:
+                ref = fb(copy.deepcopy(m).double(), x=x.double() if x.is_floating_point() else x)
+            except Exception:
+                ref = None
         got = None
         with ctx.guard(f"C20:{name}:compile", key):
             torch._dynamo.reset()
             cm = torch.compile(copy.deepcopy(m), backend=backend)
             got = fb(cm)
         if got is not None:
-            if not close(got[0], want[0], dt):
+            if not rounding_close(got[0], want[0], ref[0] if ref else None, dt):
                 ctx.violation(f"C20:{name}:output", "compiled module output differs from eager", key)
-            for a, b in zip(got[1], want[1]):
-                if (a is None) != (b is None) or (a is not None and not close(a, b, dt)):
+            for j, (a, b) in enumerate(zip(got[1], want[1])):
+                r64 = ref[1][j] if ref and j < len(ref[1]) else None
+                if (a is None) != (b is None) or (a is not None and not rounding_close(a, b, r64, dt)):
                     ctx.violation(f"C20:{name}:grad", "compiled module gradient differs from eager", key)
                     break
         # plain fx symbolic tracing: forward values
